@@ -56,6 +56,8 @@
  */
 
 #include "src/std.h"
+#include "rc.h"
+#include "lpc/include/runtime_config.h"
 #include "lpc/object.h"
 #include "lpc/array.h"
 #include "lpc/mapping.h"
@@ -1406,6 +1408,12 @@ void f_sprintf (void) {
 
   s = string_print_formatted ((sp - num_arg + 1)->u.string,
                               num_arg - 1, sp - num_arg + 2);
+  /* like every other string result: not longer than the configured maximum */
+  if (s && strlen (s) > (size_t) CONFIG_INT (__MAX_STRING_LENGTH__))
+    {
+      FREE_MSTR (s);
+      error ("sprintf: String too long.\n");
+    }
   pop_n_elems (num_arg);
 
   (++sp)->type = T_STRING;
